@@ -175,6 +175,8 @@ class StreamingHandler(AsyncCallbackHandler, AsyncIterator):
                             self.current_chunk = self.completion[len(prev_completion) :]
                             # It is added to the completion when it is processed
                             self.completion = prev_completion
+                            # (the stream ends here: a prefix that has not matched by now never will)
+                            self.prefix = None
                             await self.push_chunk(None)
 
                         # And we stop the streaming
